@@ -5,12 +5,11 @@ CONSTANTS
  S = 2
  G = 4
  Defect = "none"
- MaxT = 5
+ MaxT = 4
  D = 1
  Atomic = TRUE
  Hs <- H2
  Tampers <- TAll
  Crash = FALSE
 INVARIANTS Weak
-PROPERTIES WeakAct
 CHECK_DEADLOCK FALSE
